@@ -50,7 +50,9 @@ CONFIG = {
                   "C19_zero_parents_refuted_for_unchanged_code exhibits the pre-fix update, C19_unchanged_code_differs_only_there bounds the "
                   "difference. Trusted: Coq kernel; extraction + OCaml driver; the hand-written model (tied by sampling only; the py2v "
                   "fragments of DESIGN 2.2(b) are not implemented for this property); harness generators / exactness bookkeeping / spies. "
-                  "Adam's own update is C18's subject: here it is an opaque optimiser whose new point is an input. No axioms.",
+                  "Adam's own update is C18's subject: here it is an opaque optimiser whose new point is an input. In the model ask() is a pure "
+                  "function of the emitter state (repeatable); GradientOperatorEmitter.ask with measure_gradients=False is so only with "
+                  "fixes/FC19a.patch (found by this check). No axioms.",
     "technique": "Rocq/Coq proof over an executable Gallina model + model-vs-implementation correspondence run + independent oracle",
     "design_ref": "DESIGN.md section 5, C19",
 }
@@ -262,7 +264,7 @@ def run_gae(case):
                     new = theta[c] + upd
                     if np_ >= 2 or not (is_f64(step) and is_f64(upd) and rep(new, dt)):
                         exact = False
-                    b1 = (np_ + 8) * U * (sum(abs(t) for t in terms) + abs(theta[c]))
+                    b1 = (np_ + 64) * U * (sum(abs(t) for t in terms) + abs(theta[c]))   # 64: ln(mu+1/2)-ln(i) cancels, math.log vs numpy.log may differ by an ulp
                     sb.append(b1)
                     tb.append(abs(lrq) * b1 + 4 * U * (abs(upd) + abs(new)) + ftol(dt, new))
                 if np_ == 0:
@@ -856,6 +858,15 @@ THEOREMS = ["C19_span_gae", "C19_span_goe", "C19_span_goe_objective_only", "C19_
             "C19_accept_after_tell_dqd", "C19_step", "C19_mean_in_hull", "C19_zero_parents", "C19_restart", "C19_no_restart"]
 
 
+def zero_parent_step_shape(d):
+    """the optimiser was stepped although zero parents were selected -- by the zero vector when the oracle sees no move (theta at
+    the origin): same class as F11"""
+    if not (isinstance(d, dict) and "impl_log" in d and "model_log" in d):
+        return False
+    ml, il = d["model_log"], d["impl_log"]
+    return bool(ml and ml[0][0] == 0 and ml[0][2] == 0 and any(a[0] == 1 for a in il) and not any(a[0] == 1 for a in ml))
+
+
 def report(rep, case, d, driver):
     small = shrink(case, driver)
     try:
@@ -866,6 +877,8 @@ def report(rep, case, d, driver):
     if msg is None:
         msg, kind = oracle(case)
     tags = {"kind": kind if kind in ("gae-zero-parents-step", "goe-ask-not-repeatable") else "correspondence", "emitter": small["emitter"]}
+    if msg is None and zero_parent_step_shape(d2):
+        tags["kind"] = "gae-zero-parents-step"
     if msg is not None and tags["kind"] == "correspondence":
         tags["clause"] = kind
     rep.violation("DQD emitter and the DQD model disagree" + (": " + msg if msg else ""),
@@ -888,7 +901,7 @@ def replay(rp, driver):
 
 def check(rep, tier, seed, driver):
     rng = random.Random(seed)
-    n_gae, n_goe = (1400, 900) if tier == "quick" else (14000, 9000)
+    n_gae, n_goe = (1400, 900) if tier == "quick" else (8000, 5000)
     rep.rule = ("random configurations of GradientArborescenceEmitter (solution dim 1..5, 1..3 measures, batch 1..6, mu / filter, basic / "
                 "no_improvement / every N, normalize_grad on/off with epsilon in {0, 1/2, 1, 2, 3, 4} or the default, gradient ascent (spy-"
                 "wrapped or by name) / opaque scripted optimiser / Adam, scripted or stock rankers, float64 / float32 archives) and of "
@@ -959,9 +972,21 @@ def check(rep, tier, seed, driver):
         nt = nontrivial(case, recs) if recs else False
         rep.case(case, nt, sample=case if nt and len(case["ops"]) <= 5 else None)
         if d is not None:
+            # at most two replays per finding class, five in all (Report prints five)
+            try:
+                pre = oracle(case)[1] or "correspondence"
+            except Exception:  # noqa
+                pre = "correspondence"
+            if pre == "correspondence" and zero_parent_step_shape(d):
+                pre = "gae-zero-parents-step"
+            rep.count("disagreeing_cases")
+            if reported.get(pre, 0) >= 2:
+                continue
             kind = report(rep, case, d, driver)
-            reported[kind] = reported.get(kind, 0) + 1
-            if len(rep.violations) >= 4:
+            reported[pre] = reported.get(pre, 0) + 1
+            if kind != pre:
+                reported[kind] = reported.get(kind, 0) + 1
+            if len(rep.violations) >= 5:
                 break
     h = rep.hist
     for key, floor in (("GAE_ask_bitwise", 200), ("GOE_ask_bitwise", 100), ("GAE_tell_bitwise", 100), ("GAE_tell_zero_parents_no_restart", 20),
